@@ -510,6 +510,21 @@ func runC13(c *Ctx) {
 					ok = false
 				}
 			}
+			// ... or the runner itself is a method of the server that refuses in remote mode before it runs the tool
+			if !ok {
+				if g := call.Parent(); g != fn && recvNamed(g) == recvNamed(fn) && len(g.Params) > 0 {
+					handed := true
+					for _, site := range w.sitesIn(fn, g) {
+						if a := site.Common().Args; len(a) == 0 || w.Expr(a[0]) != "p0" {
+							handed = false
+						}
+					}
+					gf := w.Facts(g)
+					if handed && gf.Any(call.Block(), func(l Lit) bool { return !l.Pol && w.ExprIn(g, l.V) == "p0."+remoteField }) {
+						ok = true
+					}
+				}
+			}
 			c.Check(ok, "R3.remote", "server."+name+"|tool run only when not remote", w.Pos(call.Pos()), "must-fact remote == false", "the PIV tool can be run on a remote-mode server")
 		}
 		// a failure of the tool fails the operation: wherever the error of running it is non-nil, control reaches only
@@ -552,7 +567,12 @@ func runC13(c *Ctx) {
 					if asIs {
 						for _, r := range liveReturns(fr.g) {
 							if r.Results[idx] != fr.ev {
-								asIs = false
+								// another way out of the runner that is a failure as well (the remote-mode refusal in front)
+								for _, lf := range w.Leaves(r.Results[idx], r) {
+									if !w.NonNil(lf.Val, lf.Facts) {
+										asIs = false
+									}
+								}
 							}
 						}
 					}
@@ -681,11 +701,23 @@ func runC13(c *Ctx) {
 			es, isSlice := elem.(*ssa.Slice)
 			okElem := false
 			var line ssa.Value
+			var cutPrefix *ssa.Call // the prefix test and cut in one: strings.CutPrefix(line, "Slot")
+			var cutRest ssa.Value
 			if isSlice {
 				lo, ok1 := intConst(es.Low)
 				hi, ok2 := intConst(es.High)
 				okElem = ok1 && ok2 && lo == 5 && hi == 7
 				line = es.X
+				// rest, ok := strings.CutPrefix(line, "Slot"); rest[1:3] is line[5:7] when ok
+				if ex, isEx := es.X.(*ssa.Extract); isEx && ex.Index == 0 && ok1 && ok2 {
+					if cp, isCall := ex.Tuple.(*ssa.Call); isCall && calleeName(cp) == "strings.CutPrefix" && len(cp.Call.Args) == 2 {
+						if pfx, isK := strConst(cp.Call.Args[1]); isK && pfx == "Slot" {
+							cutPrefix, cutRest = cp, es.X
+							okElem = lo+int64(len(pfx)) == 5 && hi+int64(len(pfx)) == 7
+							line = cp.Call.Args[0]
+						}
+					}
+				}
 			}
 			c.Check(okElem, "R4.slots", "ListSlots|appends the two characters after 'Slot '", w.Pos(call.Pos()), "line[5:7]", "the slot name appended is not line[5:7]: "+w.Short(elem))
 			if line == nil {
@@ -787,6 +819,9 @@ func runC13(c *Ctx) {
 				if l.Pol && isHasPrefix(l.V) {
 					return true
 				}
+				if ex, isEx := l.V.(*ssa.Extract); isEx && cutPrefix != nil && l.Pol && ex.Tuple == ssa.Value(cutPrefix) && ex.Index == 1 {
+					return true
+				}
 				bin, ok := l.V.(*ssa.BinOp)
 				if !ok || !((l.Pol && bin.Op == token.EQL) || (!l.Pol && bin.Op == token.NEQ)) {
 					return false
@@ -804,6 +839,9 @@ func runC13(c *Ctx) {
 			if okElem {
 				bcLen := &boundsCtx{w: w, fn: pf, root: pf, facts: f}
 				need := bcLen.lenLB(line, call.Block())
+				if cutPrefix != nil {
+					need = bcLen.lenLB(cutRest, call.Block()) + 4 // what is left behind the four characters of the prefix
+				}
 				c.Check(need <= 7, "R4.slots", "ListSlots|every line holding a slot name is taken", w.Pos(call.Pos()), "the length required of a line is 7", "a line is taken only if it has at least "+itoa(int(need))+" characters: a status line that ends right after the two-character slot name is dropped")
 			}
 			c.Check(okPrefix, "R4.slots", "ListSlots|only lines beginning with Slot", w.Pos(call.Pos()), "must-fact line[:4] == \"Slot\"", "a line that does not begin with 'Slot' can contribute a slot name")
@@ -827,8 +865,11 @@ func runC13(c *Ctx) {
 				if u, ok := l.V.(*ssa.UnOp); ok && u.Op == token.NOT && isHasPrefix(u.X) {
 					continue
 				}
+				if ex, isEx := l.V.(*ssa.Extract); isEx && cutPrefix != nil && ex.Tuple == ssa.Value(cutPrefix) && ex.Index == 1 {
+					continue
+				}
 				if bin, ok := l.V.(*ssa.BinOp); ok {
-					if la := lenArg(bin.X); la != nil && la == line {
+					if la := lenArg(bin.X); la != nil && (la == line || (cutRest != nil && la == cutRest)) {
 						continue
 					}
 					if k, isK := strConst(bin.Y); isK && k == "Slot" {
